@@ -23,6 +23,7 @@ type stopCase struct {
 	ID      string `json:"id"`
 	Src     any    `json:"src"`
 	Inputs  []any  `json:"inputs"`
+	Events  []eventSpec `json:"events"`
 	NonTerm bool   `json:"nonterm"`
 	RefK    int    `json:"refK"`
 	CapK    int    `json:"capK"`
@@ -65,7 +66,15 @@ func stageStop(raw json.RawMessage) Result {
 	if c.NonTerm {
 		refStop = c.RefK
 	}
-	ref := execute(src, inputs, nil, refStop, false, false, 1)
+	// with events the run is the top-level code followed by the handlers of the delivered events
+	run := func(stopAt int) observation {
+		o := execute(src, inputs, c.Events, stopAt, false, false, 1)
+		if o.ParseErr == nil {
+			o.Effects, o.YieldAt, o.Result = o.AllEffects, o.AllYieldAt, o.AllResult
+		}
+		return o
+	}
+	ref := run(refStop)
 	obs := map[string]any{"src": src}
 	if ref.ParseErr != nil {
 		return Result{OK: false, Obs: obs, Diff: "specification says this program is well-formed, parser rejects it: " + firstLine(ref.ParseErr.Error())}
@@ -114,7 +123,7 @@ func stageStop(raw json.RawMessage) Result {
 	}
 	distinctPrefix := map[int]bool{}
 	for _, k := range ks {
-		o := execute(src, inputs, nil, k, false, false, 1)
+		o := run(k)
 		tag := fmt.Sprintf("stop raised at yield %d of %d: ", k, y)
 		if o.AfterStop != 0 {
 			return Result{OK: false, Obs: obs, Diff: tag + fmt.Sprintf("the yielder was called %d more time(s) after the flag was raised", o.AfterStop)}
